@@ -641,14 +641,14 @@ def exp_prior(kind_prior, q, d, base, param, variant="plain", diffuse=0):
     raise ValueError(kind_prior)
 
 
-def check_exp_prior(ctx, kind_prior, q, d, h, s, tag):
+def check_exp_prior(ctx, kind_prior, q, d, h, s, tag, variant=None, diffuse=None):
     import jax.numpy as jnp
 
     rng = ctx.rng
     base = np.array([float(2.0 ** rng.integers(-2, 3)) * float(rng.choice([1.0, 1.5])) for _ in range(d)])
     N = (q + 1) * d
-    variant = gen.pick(rng, ["plain", "diffuse"], [2, 1])
-    diffuse = int(rng.integers(1, q + 1)) if q >= 1 and rng.random() < 0.5 else 0
+    variant = gen.pick(rng, ["plain", "diffuse"], [2, 1]) if variant is None else variant
+    diffuse = (int(rng.integers(1, q + 1)) if q >= 1 and rng.random() < 0.5 else 0) if diffuse is None else diffuse
     tag = dict(tag, constructor=variant, diffuse_derivatives=diffuse)
     ctx.count(f"exp.constructor={variant}")
     ctx.count(f"exp.diffuse_derivatives={'0' if diffuse == 0 else '>0'}")
@@ -742,6 +742,12 @@ def run_reference(ctx):
                 ctx.count(f"expgram.{np.dtype(dtype).name}.order{q}")
                 ctx.count("expgram.norm<1" if nrm < 1 else ("expgram.norm<10" if nrm < 10 else "expgram.norm>=10"))
                 ctx.case({"part": "exp_gram", "order": q, "dtype": np.dtype(dtype).name, "n": n, "m": m, "kind": kind, "norm": nrm})
+    # every constructor x diffuse_derivatives in {0, 1} once per run (the wrappers differ only in what they forward)
+    for kind_prior in ("ou", "matern", "general"):
+        for variant in ("plain", "diffuse"):
+            for diffuse in (0, 1):
+                check_exp_prior(ctx, kind_prior, 2, 2 if kind_prior != "matern" else 1, 0.375, 1.5, {"it": "grid"}, variant=variant, diffuse=diffuse)
+                ctx.case({"part": "exp-prior", "prior": kind_prior, "q": 2, "constructor": variant, "diffuse": diffuse})
     for it in range(ctx.n(9, 120)):
         kind_prior = ["ou", "matern", "general"][it % 3]
         if it < 3:
